@@ -309,6 +309,82 @@ def size_family(v, work, tier, pool):
     v.subspace("size family: 8 ordinary shapes + 2 recursion probes x sizes %r x style x mode (wall limit 100 s up to 100 kB, 400 s up to 1 MB, 1800 s beyond)" % sizes, len(jobs))
 
 
+def _rep(unit, n):
+    """n bytes of `unit(i)` repeated"""
+    out = []
+    size = 0
+    i = 0
+    while size < n:
+        u = unit(i)
+        out.append(u)
+        size += len(u)
+        i += 1
+    return b"".join(out)
+
+
+# ordinary shapes whose size is "the same thing again": run time has to grow in proportion (scaling oracle)
+SCALING_FAMILIES = {
+    "referenced-statements": lambda n: _rep(lambda i: b'fn f%d() { info!("[ref: %d] statement %d {}", %d); }\n' % (i, i + 1, i, i), n),
+    "referenced-statements-kv": lambda n: _rep(lambda i: b'fn f%d() { info!(ref = %d, k = %d; "statement {}", %d); }\n' % (i, i + 1, i, i), n),
+    "unreferenced-statements": lambda n: _rep(lambda i: b'fn f%d() { info!("statement %d {}", %d); warn!(target: "t", a = %d; "w"); }\n' % (i, i, i, i), n),
+    "other-macros-string-first": lambda n: _rep(
+        lambda i: b'    %d => format!("code %d: {}", x),\n    %d => { println!("value {}", %d); panic!("no") }\n' % (2 * i, i, 2 * i + 1, i), n) + b'fn f() { info!("x"); }\n',
+    "other-macros-non-string": lambda n: _rep(lambda i: b'fn t%d() { let v = vec![%d, 2, 3]; assert_eq!(v.len(), 3); assert!(v[0] == %d, "v"); }\n' % (i, i, i), n),
+    "unconfigured-log-macros": lambda n: _rep(lambda i: b'fn f%d() { tracing::event!(Level::INFO, "e %d"); my_log!("m %d"); log::log!(lvl, "l"); }\n' % (i, i, i), n),
+    "doc-comments-and-items": lambda n: _rep(lambda i: b'/// Returns item %d.\n///\n/// # Errors\n/// never\npub fn item_%d(x: u32) -> u32 { x + %d }\n\n' % (i, i, i), n) + b'fn f() { info!("x"); }\n',
+    "string-table": lambda n: b"const T: &[&str] = &[\n" + _rep(lambda i: b'    "entry %d with some text",\n' % i, n) + b'];\nfn f() { info!("x"); }\n',
+    "nested-modules": lambda n: _rep(lambda i: b"mod m%d { pub mod inner { pub fn f() { if true { loop { break; } } } } }\n" % i, n) + b'fn f() { info!("x"); }\n',
+    "ignored-statements": lambda n: _rep(lambda i: b'// breadlog:ignore\ninfo!("ignored %d");\n// breadlog:no-kvp\nwarn!("nk %d");\n' % (i, i), n),
+    "crlf-statements": lambda n: _rep(lambda i: b'fn f%d() {\r\n    info!("statement %d");\r\n}\r\n' % (i, i), n),
+    "corpus-concatenated": lambda n: SIZE_FAMILIES["corpus-concatenated"](n),
+}
+SCALE_RATIO = 9.0       # time(4n) / time(n): 4 when linear, 16 when quadratic
+SCALE_FLOOR_S = 3.0     # ... and only when the larger input costs real time (CPU seconds)
+
+
+def _scale_job(args):
+    fam, size, structured, check, work = args
+    content = SCALING_FAMILIES[fam](size)
+    proj = os.path.join(work, "sc_%s_%d_%d_%d" % (fam, size, structured, check))
+    cli.write_tree(proj, {"src/big.rs": content, "Breadlog.yaml": cli.config_yaml("./src", use_cache=False, structured=structured)})
+    r = cli.run_breadlog(os.path.join(proj, "Breadlog.yaml"), check=check, cwd=work, tmpdir=work, timeout=1800)
+    shutil.rmtree(proj, ignore_errors=True)
+    return fam, size, structured, check, len(content), r.panicked, r.timed_out, r.signal, r.exit, r.cpu, r.stderr[-300:]
+
+
+def scaling_family(v, work, tier, pool):
+    """Run time on ordinary shapes grows in proportion to the input: the same shape at 4x the size may not cost >= 9x the CPU time once the
+    cost is seconds (a linear implementation measures 4x whatever its constant, a quadratic one 16x). CPU time of the child process, so the
+    verdict does not depend on what else the machine is doing."""
+    sizes = [2 ** 16, 2 ** 18, 2 ** 20] + ([2 ** 22] if tier == "thorough" else [])
+    jobs = [(fam, size, structured, check, work) for fam in SCALING_FAMILIES for size in sizes
+            for structured, check in ((False, True), (True, False), (False, False))]
+    cpu = {}
+    for fam, size, structured, check, nbytes, panicked, timed_out, sig, ex, c, err in pool.imap_unordered(_scale_job, sorted(jobs, key=lambda j: -j[1])):
+        v.count()
+        v.distinct(("scale", fam, size, structured, check))
+        cpu[(fam, structured, check, size)] = c
+        if panicked or timed_out or sig is not None:
+            v.violation("size:%s:%s" % (fam, "no-termination-within-1800s@%d-bytes" % size if timed_out else "crash"),
+                        {"family": fam, "bytes": nbytes, "mode": "check" if check else "edit", "structured": structured, "timed_out": timed_out,
+                         "signal": sig, "exit": ex, "cpu_s": round(c, 2), "stderr": err.decode("utf-8", "replace")})
+    table = {}
+    for fam in SCALING_FAMILIES:
+        for structured, check in ((False, True), (True, False), (False, False)):
+            series = [cpu[(fam, structured, check, s)] for s in sizes]
+            table["%s/%s/%s" % (fam, "kv" if structured else "msg", "check" if check else "edit")] = [round(x, 2) for x in series]
+            for a, b, s in zip(series, series[1:], sizes[1:]):
+                if b >= SCALE_FLOOR_S and b / max(a, 0.01) >= SCALE_RATIO:
+                    v.violation("size:%s:super-linear-run-time" % fam,
+                                {"family": fam, "mode": "check" if check else "edit", "structured": structured, "sizes": sizes, "cpu_s": [round(x, 2) for x in series],
+                                 "what": "%d bytes cost %.1f s of CPU, %.1f times what %d bytes of the same shape cost" % (s, b, b / max(a, 0.01), s // 4)},
+                                replay_files={"gen.py": "# python3 -c 'import sys; sys.path[:0]=[\"/verif/lib\",\"/verif/lib/props\"]; import c17; "
+                                                        "sys.stdout.buffer.write(c17.SCALING_FAMILIES[\"%s\"](%d))' > big.rs\n" % (fam, s)})
+    v.coverage["cpu_s_by_shape_and_size"] = table
+    v.subspace("scaling: %d ordinary shapes x sizes %r x {check/msg, edit/kv, edit/msg}; CPU time at 4x the size must stay below %gx once it reaches %g s"
+               % (len(SCALING_FAMILIES), sizes, SCALE_RATIO, SCALE_FLOOR_S), len(jobs), exhaustive=True)
+
+
 def run(tier, v):
     paths = vh.cfg_paths()
     work = scratch_dir("c17")
@@ -435,6 +511,7 @@ def run(tier, v):
     # (iv) invalid UTF-8, (v) sizes
     utf8_family(v, work)
     size_family(v, work, tier, pool)
+    scaling_family(v, work, tier, pool)
     pool.close()
     pool.join()
     v.coverage["rule"] = ("one evaluation = one input text parsed in-process under catch_unwind (panic, entry-list preconditions, parse time) or one "
